@@ -85,3 +85,83 @@ def shrink_script(ctx, d, project):
     d["impl"] = ctx.hook("script", [q])[0]
     d["model"] = ctx.model("script", [q])[0]
     return d
+
+
+def long_scripts(r, big):
+    """scripts beyond 10 000 bytes (the property's quantifier says 0..10k+; consensus limits do not apply to a parser)"""
+    import struct
+    for ln in ([9999, 10000, 10001, 10002, 12345, 40000, 65535, 65536] if big else [10000, 10001, 12345, 65536]):
+        yield "long-nops-%d" % ln, b"\x61" * ln
+        yield "long-opreturn-pd2-%d" % ln, (b"\x6a\x4d" + struct.pack("<H", ln - 4) + b"A" * (ln - 4)) if ln - 4 < 65536 else (b"\x6a\x4e" + struct.pack("<I", ln - 6) + b"A" * (ln - 6))
+        yield "long-p2pkh-tail-%d" % ln, b"\x76\xa9\x14" + G.rb(r, 20) + b"\x88\xac" + b"\x61" * (ln - 25)
+        yield "long-random-%d" % ln, b"\x51" + G.rb(r, ln - 1)
+
+
+def run_via_outputs(ctx, cases, coins_of, family_prefix="out-path:"):
+    """the same verdicts observed where the property says they are observed: scripts placed in the outputs of a transaction and
+    pushed through the real read_block -> EvaluatedTx -> eval_script path (hook `block`), compared with the Lean model's answer
+    for the same block and, model-free, with the direct `script` verdict of the same build (both paths must agree)"""
+    from . import chain as K
+    ver_of = {"bitcoin": "00", "testnet3": "6f", "namecoin": "34", "litecoin": "30", "dogecoin": "1e", "myriadcoin": "32", "unobtanium": "82", "noteblockchain": "35"}
+    groups = {}
+    for i, (fam, s) in enumerate(cases):
+        for coin in coins_of(fam, i):
+            groups.setdefault(coin, []).append((fam, s))
+    reqs, meta = [], []
+    for coin, items in groups.items():
+        k = 0
+        while k < len(items):
+            # up to 12 scripts (or ~200 KB) per transaction
+            batch, size = [], 0
+            while k < len(items) and len(batch) < 12 and size < 200000:
+                batch.append(items[k]); size += len(items[k][1]); k += 1
+            cb = K.Tx([(b"\0" * 32, 0xffffffff, b"\x01\x01", 0xffffffff)], [(1, b"\x51")])
+            t = K.Tx([(b"\x11" * 32, 0, b"", 0)], [(j, s) for j, (_f, s) in enumerate(batch)])
+            raw = K.Block([cb, t], version=1).enc()
+            reqs.append("%s %d %s" % (coin, len(raw), raw.hex()))
+            meta.append((coin, batch))
+    if not reqs:
+        return
+    impl = ctx.hook("block", reqs)
+    model = ctx.model("block", reqs)
+    sreqs = []
+    for coin, batch in meta:
+        for fam, s in batch:
+            sreqs.append("%s %s" % (ver_of[coin], G.hexs(s)))
+    direct = ctx.hook("script", sreqs)
+    di = 0
+    def outs(ans):
+        t = ans.split()
+        # tokens: … "O" value script tag address …; the second transaction's outputs are the scripts under test
+        res, i, seen_t = [], 0, 0
+        while i < len(t):
+            if t[i] == "T":
+                seen_t += 1
+            if t[i] == "O" and seen_t == 2 and i + 4 < len(t) + 1:
+                res.append((t[i + 3], t[i + 4]))
+                i += 5
+                continue
+            i += 1
+        return res
+    for (coin, batch), q, a, b in zip(meta, reqs, impl, model):
+        oa, ob = outs(a), outs(b)
+        for j, (fam, s) in enumerate(batch):
+            d = direct[di].split(); di += 1
+            va = oa[j] if j < len(oa) else ("MISSING", a[:40])
+            vb = ob[j] if j < len(ob) else ("MISSING", b[:40])
+            ctx.mark(("out", coin, s), True)
+            ctx.families[family_prefix + fam.split(":")[0].split("-")[0]] += 1
+            sreq = "%s %s" % (ver_of[coin], G.hexs(s))
+            if va != vb:
+                ctx.disagree(family_prefix + fam, "block-output %s script %s" % (coin, sreq if len(sreq) < 300 else sreq[:300] + "…(%d bytes)" % len(s)), " ".join(va), " ".join(vb), True,
+                             {"full_request": sreq if len(sreq) < 200000 else None, "via": "block", "coin": coin, "observable": "type+address through read_block/eval_script"})
+            elif tuple(d[:2]) != tuple(va) and d[0] != "PANIC":
+                ctx.disagree(family_prefix + fam + ":paths", "block-output %s script %s" % (coin, sreq if len(sreq) < 300 else sreq[:300] + "…(%d bytes)" % len(s)), "via block: " + " ".join(va), "via eval_from_bytes: " + " ".join(d[:2]), True,
+                             {"full_request": sreq if len(sreq) < 200000 else None, "via": "block", "coin": coin, "observable": "the two call paths of the same build disagree"})
+
+
+def replay_via_outputs(ctx, rep):
+    d = rep.get("failing_input", rep)
+    v, hx = d["full_request"].split()
+    s = bytes.fromhex(hx) if hx != "-" else b""
+    run_via_outputs(ctx, [("replay", s)], lambda f, i: [d["coin"]])
